@@ -54,6 +54,7 @@ CONSTANTS Mains,        \* Seq([wits : Seq([t, m, keys]), vub, nk])
           DesigChoices, \* sets of keys a designation block may name
           Wallet,       \* keys of the service's wallet, in the order UpdateNotaryNodes meets them
           AllowRestart, AllowRelayOff,
+          RemovalRace,  \* TRUE: the block notification may overtake the LAST removal notification of that block (mainLoop's select)
           DesigRace,    \* TRUE: a designation block may come while a finalised transaction waits in newTxs / is being relayed
           KeepFirstCopy, WithdrawOnRemoval, BugDoubleCount, BugOneWitness, BugEarlyFallback, BugNoVerify,
           BugStaleKey, BugMainTwice, BugNoNKeys
@@ -208,6 +209,14 @@ MainLoop ==
          [] n.t = "blk" -> PostPersist
     /\ UNCHANGED <<nodeVars, acc, fly, log>>
 
+\* the pool's dispatcher still holds the last removal notification of a block when the chain's dispatcher offers the block
+\* notification: mainLoop's select may take the block first
+MainLoopRace ==
+    /\ RemovalRace /\ Len(inq) >= 2 /\ inq[1].t = "rem" /\ inq[2].t = "blk"
+    /\ inq' = <<inq[1]>> \o SubSeq(inq, 3, Len(inq))
+    /\ PostPersist
+    /\ UNCHANGED <<nodeVars, acc, fly, log>>
+
 (* ---- the node's ledger and memory pool, as far as these transactions go ---- *)
 SlotOK(m, w, c) == c.ver /\ ~c.junk /\ c.inv \subseteq Wits(m)[w].keys /\ Cardinality(c.inv) = A!Need(Wits(m)[w])
 WokOf(it) ==
@@ -328,7 +337,7 @@ Driver == \/ \E r \in RIds : Submit(r)
           \/ Restart
           \/ \E b \in BOOLEAN : Relay(b)
 
-Next == Driver \/ MainLoop \/ TxTake \/ TxDone
+Next == Driver \/ MainLoop \/ MainLoopRace \/ TxTake \/ TxDone
 
 Spec == Init /\ [][Next]_vars
 
